@@ -6,20 +6,28 @@ SPEC = dict(
     drivers=["qxdriver_c09"],
     harnesses=[dict(name="sm", driver="qxdriver_c09")],
     exhaustive=True,
-    rule="histories over {send stanza (write ok / write fails), send nonza, sendIq (tracked request through QXmppOutgoingClient::sendIq), "
-         "<a h/> with h = last number used (exact), one below (stale/partial), one beyond, <r/>, receive message/presence/iq/nonza, receive the "
-         "IQ result for the oldest / the IQ error for the newest outstanding tracked request (an unsolicited response if none is outstanding), "
-         "connection lost, reconnect where the scripted server refuses <resume/> and accepts <enable/>, accepts <resume/> with h "
-         "exact/stale/beyond, offers no stream management, refuses both, resetCache}, applied to a real QXmppOutgoingClient (real "
-         "StreamAckManager, OutgoingIqManager, C2sStreamManager, BindManager, XmppSocket; only QSslSocket::writeData is captured; everything "
-         "received goes through handlePacketReceived): quick = every history of length 5 over an 11-symbol alphabet, of length 3 over all 22 "
-         "symbols, and every length-5 continuation (9 symbols) of a session holding two stored stanzas; thorough = length 7 over 7 symbols, "
-         "length 6 over 9, length 5 over 11, length 4 over 22, and every length-6 continuation of that session; plus seeded random histories "
-         "of up to 60 symbols over 27 symbols (weighted) including failed writes during sendIq, <r/>, <enabled/>, <resumed/>. Every op line "
-         "(symbols resolved to numbers) compares, between the implementation and the Lean model, the ordered events of that op (elements "
-         "written: packet label, r, a<h>, resume<h>; reports: label!sent|ack|ewrite|edisc; the bool send returns; the delivery report of a "
-         "tracked IQ request is consumed by the IQ manager and is left out on both sides) and enabled()/lastIncomingSequenceNumber(). A "
-         "history is non-trivial when it yields >= 2 distinct observations.",
+    rule="histories over {send stanza (write ok / write fails), send nonza, sendIq (tracked request), <a h/> with h = last number used (exact), one "
+         "below, one beyond, each also with re-entrant delivery reports (the QXmppTask continuation of every acknowledged packet sends one new "
+         "stanza from inside the report), <r/>, receive message/presence/iq/nonza, IQ result/error for an outstanding request, connection "
+         "lost, reconnect where the scripted server refuses <resume/> (plain <failed/> or <failed h=exact|one below/>) and accepts <enable/>, "
+         "accepts <resume/> with h exact/one below/beyond (also with re-entrant reports), offers no stream management, refuses both, "
+         "resetCache; every reconnect both through the classic post-authentication negotiation (<resume/>, bind, <enable/> as own elements) "
+         "and through SASL2/Bind2 (<resume/> inside <authenticate/>, <resumed/>/<failed/> and <bound><enabled/></bound> inside <success/>)}, "
+         "applied to a real QXmppOutgoingClient (real StreamAckManager, OutgoingIqManager, C2sStreamManager, Sasl2Manager, BindManager, "
+         "XmppSocket; only QSslSocket::writeData is captured; everything received goes through handlePacketReceived). Exhaustive blocks: "
+         "quick = length 5 over 11 symbols, length 5 over the 10 re-entrancy/<failed h/> symbols, length 4 over the 11 SASL2 symbols, length 3 "
+         "over all 31 symbols, every length-5 continuation (9 symbols) of a session holding two stored stanzas; thorough = additionally length 7 "
+         "over 7, length 6 over 9, length 4 over 22, length 5 over the SASL2 symbols, length-5/6 continuations of two prefixes; plus seeded "
+         "random histories of up to 60 symbols over 47 symbols (weighted) including failed writes during every kind of operation. Every op "
+         "line (symbols resolved to numbers and to the ids of the packets whose continuation sends) compares, between the implementation and "
+         "the Lean model, the ordered events of that op (elements written: packet label, r, a<h>, resume<h>; reports: label!sent|ack|ewrite|"
+         "edisc; the bool send returns; the report of a tracked IQ request is consumed by the IQ manager and left out on both sides) and "
+         "enabled()/lastIncomingSequenceNumber(). Oracle (own bookkeeping): <=1 report per packet, exactly one after teardown, acknowledged "
+         "only if covered, covered => confirmed, resent set/order with newer traffic last, nothing written after its report, nothing covered "
+         "by <failed h/> resent, h of <a/>/<resume/> = stanzas received on the session (mod 2^32), an honest server's count = the client's "
+         "numbering. 2^32 wrap: both private counters of the real StreamAckManager are set to 4294967294 (explicit-instantiation access, "
+         "no patch) and driven across the wrap; judged by the oracle only (the model's counters are unbounded). A history is non-trivial when "
+         "it yields >= 2 distinct observations.",
     trusted_base=[
         "Lean 4.33.0 kernel; axioms per theorem listed under coverage.theorems (subset of propext, Classical.choice, Quot.sound)",
         "hand-written model lean/Qx/Model/C09Sm.lean, tied to src/base/QXmppStreamManagement.cpp and the C2sStreamManager calls in "
@@ -29,19 +37,26 @@ SPEC = dict(
         "QXmppPromise/QXmppTask deliver a report to the continuation attached by the harness (C13)",
     ],
     assumptions=[
-        "counters are unbounded in the model; the C++ uses unsigned int, behaviour after 2^32 stanzas on one session is outside the model",
-        "report continuations do not re-enter the manager (a send() issued from inside a delivery report while <a/> or resetCache is being "
-        "processed is not modelled)",
+        "counters are unbounded in the model; the C++ uses unsigned int: behaviour across 2^32 is outside the model and theorems, it is "
+        "probed on the real class by the harness (see rule) and judged by the oracle only",
+        "re-entrancy is modelled to depth one and for 'acknowledged' reports only: the continuation of an acknowledged packet may send one "
+        "stanza; continuations of packets sent from inside a report, of 'disconnected' reports (resetCache) and of immediate reports do not "
+        "send",
         "received elements named message/presence/iq are in the jabber:client namespace (handleStanza looks at the tag name only)",
         "the sequence number the model assigns to a stored packet is the server's count of it, i.e. the transport delivers what was written, "
         "in order, while the connection is up (no server/channel model)",
         "which of <resume/> or <enable/> the client requests on a new connection (canResume logic) is observed, not modelled (C10)",
     ],
-    level_text="Theorems for every history of any length: unacknowledged keys are consecutive and end at lastOut; no packet is reported twice; "
-               "every packet is either stored or reported; 'acknowledged' only by <a h/>/<resumed h/> with h >= the packet's number (and "
-               "conversely); <resumed h/> resp. <enabled/> write exactly the stored packets with number > h resp. all, in order, then <r/>, "
-               "before anything later; a reported packet is never written again; <enabled/> renumbers 1..n; every written h equals the "
-               "number of stanzas received on that session (while stream management was on, since its <enabled/>).",
+    level_text="Theorems for every history of any length, including re-entrant delivery reports (continuations that send, depth one) at the "
+               "<a/> and <resumed/> sites: unacknowledged keys are consecutive and end at lastOut; no packet is reported twice; every packet is "
+               "either stored or reported; 'acknowledged' only by an operation carrying h, for a packet numbered <= h (stored, or just sent by a "
+               "continuation when h is beyond); <a h/> confirms exactly the stored packets <= h; <enabled/> writes all stored packets in order "
+               "then <r/> and renumbers 1..n; <resumed h/> writes exactly those > h in order then <r/> (proved when no acknowledged packet "
+               "has a sending continuation: _partial); a reported packet is never written again; at the <a/> site stanzas sent by "
+               "continuations are numbered behind everything stored; every written h equals the number of stanzas received on that session. "
+               "Two defect theorems (negations with witnesses): a continuation sending during <resumed/> is written first and not numbered; "
+               "the h of <failed/> is ignored so covered stanzas are resent. The 2^32 wrap is NOT in the model (unbounded counters): it is "
+               "probed on the real class only (inbound wraps correctly, outbound does not: recorded finding).",
     level_note="Proved about the hand-written model; model-to-code tie is differential on a real QXmppOutgoingClient driven by a scripted "
                "server (exhaustive to a depth, sampled beyond). Channel/server behaviour, counter wrap and re-entrant continuations are "
                "assumptions, not theorems.",
